@@ -146,6 +146,26 @@ impl Origin for u16 { type Id = u64; }
 #[derive(TypeInfo)] #[scale_info(skip_type_params(O))] struct Signed<O: Origin = u16>(O, O::Id) where O: Copy;
 fn main() { assert_type_info::<Scheduled<Vec<u8>>>(); assert_type_info::<Outcome<u8, bool>>(); assert_type_info::<Signed<u16>>(); }
 """, about="a skipped parameter used directly as the type of an encoded member: the member's own type still gets its TypeInfo bound")
+case("c13_skip_before_bounds", "C13", "R13.5", "pass", """
+trait Cfg { type Balance; }
+impl Cfg for NoInfo { type Balance = u64; }
+#[derive(TypeInfo)] #[scale_info(skip_type_params(T), bounds())] struct Marker<T> { marker: PhantomData<T> }
+#[derive(TypeInfo)] #[scale_info(skip_type_params(T))] #[scale_info(bounds(T::Balance: TypeInfo + 'static, Extra: TypeInfo + 'static))]
+struct Account<T: Cfg, Extra> { free: T::Balance, extra: Extra, marker: PhantomData<T> }
+#[derive(TypeInfo)] #[scale_info(skip_type_params(Hook), bounds(Id: TypeInfo + 'static))]
+enum Event<Id, Hook> { Created(Id), Killed { who: Id }, #[codec(skip)] Internal(Hook) }
+fn main() { assert_type_info::<Marker<NoInfo>>(); assert_type_info::<Account<NoInfo, u8>>(); assert_type_info::<Event<u32, NoInfo>>(); }
+""", about="`skip_type_params` written before `bounds` (one list or two attributes): the order of the two attributes is not part of their meaning")
+case("c13_bounds_through_supertrait", "C13", "R13.5", "pass", """
+use scale_info::StaticTypeInfo;
+trait Config: TypeInfo + 'static { type Hash: TypeInfo + 'static; }
+#[derive(TypeInfo)] struct Runtime;
+impl Config for Runtime { type Hash = [u8; 32]; }
+#[derive(TypeInfo)] #[scale_info(bounds(T: StaticTypeInfo))] struct Batch<T> { items: Vec<T>, last: Option<T> }
+#[derive(TypeInfo)] #[scale_info(bounds(T: Config))] struct Header<T: Config> { parent: T::Hash, log: Vec<(T::Hash, Digest<T>)> }
+#[derive(TypeInfo)] #[scale_info(bounds(T: Config))] enum Digest<T: Config> { Seal(T::Hash), Other(Vec<u8>), #[codec(skip)] Marker(PhantomData<T>) }
+fn main() { assert_type_info::<Batch<u16>>(); assert_type_info::<Header<Runtime>>(); assert_type_info::<Digest<Runtime>>(); }
+""", about="a custom bound that provides TypeInfo through a supertrait (the library's StaticTypeInfo, a Config-style trait) is a bound: the derive checks that the parameter is named, not how the bound is spelled")
 # ------------------------------------------------------------------------------- C18: replacement segments are judged by the library's identifier rule
 case("c18_replace_with_keywords", "C18", "R18.5", "pass", """
 mod inner {
